@@ -56,6 +56,8 @@ STIG = {"paraboloid": D.paraboloid, "plano_hyperbolic": D.plano_hyperbolic, "ell
 def _lens_of(task):
     if task["family"] == "stigmatic":
         return LG.quiet(STIG[task["name"]], wavelengths=tuple(task["wls"])), {"name": task["name"]}, None
+    if task["family"] == "vignetted":
+        return LG.quiet(D.vignetted_singlet, wavelengths=tuple(task["wls"])), {"name": "vignetted_singlet"}, None
     if task["family"] == "clipped":
         return LG.quiet(D.clipped_paraboloid, wavelengths=tuple(task["wls"])), {"name": "clipped_paraboloid"}, None
     why = None
@@ -94,7 +96,8 @@ def run_task(task):
                     out.append((ev, dict(m, info=info)))
             elif what == "fftmtf":
                 ev, info = D.record_fftmtf(optic, field, wl, N, Gs, pupil=job.get("pupil", True),
-                                           ideal=(task["family"] == "stigmatic" and task.get("name") != "uv_projection"), view=job.get("view", True))
+                                           ideal=(task["family"] == "stigmatic" and task.get("name") != "uv_projection"), view=job.get("view", True),
+                                           others=[tuple(f) for f in job.get("others", [])])
                 if ev is None:
                     out.append((None, dict(m, skip=info)))
                 else:
@@ -194,7 +197,17 @@ def build_tasks(ctx):
     for i in range(1 if quick else 6):
         tasks.append(dict(family="aberrated", seed=ctx.seed * 7919 + 5000 + i, target_pv=rnd.uniform(0.05, 2.0),
                           finite=False, apertures=True, defocus=0.0, wls=[0.5876],
-                          jobs=[job("psf", 16 if i % 2 == 0 else 32, 64, 0.5876, full=True, npix=1)]))
+                          jobs=[job("psf", 16 if i % 2 == 0 else 32, 64, 0.5876, full=True, npix=1),
+                                # several fields in one FFTMTF, the beam of one of them clipped: each curve
+                                # is normalised on its own
+                                job("fftmtf", 16, 64, 0.5876, field=(0.0, 0.0), pupil=False, view=False,
+                                    others=[(0.0, 1.0), (0.0, 0.7)]),
+                                job("fftmtf", 16, 64, 0.5876, field=(0.0, 1.0), pupil=False, view=False,
+                                    others=[(0.0, 0.0)])]))
+    # --- fields of one lens that transmit different pupil fractions, analysed by one FFTMTF -------
+    tasks.append(dict(family="vignetted", wls=[0.55], seed=ctx.seed,
+                      jobs=[job("fftmtf", 16, 64, 0.55, field=(0.0, 0.0), pupil=False, view=False, others=[(0.0, 1.0)]),
+                            job("fftmtf", 16, 64, 0.55, field=(0.0, 1.0), pupil=False, view=False, others=[(0.0, 0.0)])]))
     # --- sizes whose difference is odd, odd samplings -----------------------------------
     tasks.append(dict(family="stigmatic", name="paraboloid", wls=[0.55], seed=ctx.seed + 1,
                       jobs=[job("psf", 33, 64, 0.55, full=False, npix=0),
